@@ -201,7 +201,7 @@ func StartServer(parent string, cf ConfSpec, o ServerOpts) (*ServerProc, error) 
 	}
 	bin := serverBin()
 	if o.Strace != "" {
-		args = append([]string{"-f", "-qq", "-e", "trace=connect,sendto,sendmsg,sendmmsg,bind", "-o", o.Strace, bin}, args...)
+		args = append([]string{"-f", "-qq", "-yy", "-e", "trace=connect,sendto,sendmsg,sendmmsg", "-o", o.Strace, bin}, args...)
 		bin = "strace"
 	}
 	cmd := exec.Command(bin, args...)
@@ -440,4 +440,9 @@ func echoTCP(tc *TargetConn) {
 	io.Copy(&buf, tc)
 	tc.Write(buf.Bytes())
 	tc.Close()
+}
+
+// sscodecAddr is the SOCKS address of the echo hub for a case number.
+func sscodecAddr(caseN uint64, port int) []byte {
+	return sscodec.AddrIP(caseIP4(caseN&0xffffff), port, false)
 }
